@@ -1,6 +1,510 @@
-//! C15 — not implemented yet.
+//! C15 — Membership view stays consistent under any discovery and probe history.
+//!
+//! Code under test: `distributed::membership::Membership` (`set_members`,
+//! `record_up`, `record_down`, `record_resolve_error`, `set_discovery`,
+//! `Discovery::resolve`, `members`, `peer_addresses`, `generation`, `resolved`).
+//!
+//! Stateful / model-based: a history is a `Vec<Op>`; an interpreter applies it
+//! to a fresh `Membership` and to a reference model (the set of peer address
+//! strings the last successful discovery produced, minus every spelling of
+//! this node).  After EVERY step:
+//!   * `members()` is strictly sorted by address (hence unique), has exactly one
+//!     `is_self` entry and that entry carries this node's own address;
+//!   * no peer entry denotes this node (self aliases: `localhost:<port>`, a
+//!     local-interface IP with the same port, `[::1]:<port>`), while a
+//!     port-only difference and an unresolvable name ARE peers;
+//!   * `peer_addresses()` equals the model set and the non-self part of
+//!     `members()` (nothing lost, nothing invented);
+//!   * a resolve error (reported, or a DNS discovery that fails) changes no
+//!     member, no peer record and not `resolved()`;
+//!   * `generation()` never decreases and strictly increases whenever the peer
+//!     set changed;
+//!   * a (re-)resolution that yields the same peer set leaves every peer
+//!     record (status, failures, node id, flight, last error, last seen)
+//!     exactly as it was;
+//!   * `resolved()` is false before the first successful discovery and true
+//!     ever after.
+//! The discovery step replays `server::resolve_once` (private):
+//! `discovery().resolve()` → `set_members` on Ok, `record_resolve_error` on Err.
+//!
+//! Which strings denote this node is decided by an oracle that does not use
+//! the engine: an `ip:port` literal is this node iff the port equals this
+//! node's port and a socket can be bound to the IP (i.e. it is local); a
+//! `host:port` name is this node iff it resolves and some result is; an
+//! unresolvable name never is (documented in `resolve_all`).
 use super::Property;
+use crate::runner::*;
+use proptest::prelude::*;
+use query_engine::distributed::membership::{Discovery, Member, Membership, PeerStatus};
+use serde::{Deserialize, Serialize};
+use std::collections::{BTreeMap, BTreeSet, HashMap};
+use std::net::{IpAddr, SocketAddr, ToSocketAddrs, UdpSocket};
+use std::sync::Mutex;
+
+const SELF_ID: u64 = 42;
+
+// ---------------------------------------------------------------------------
+// independent "is this me" oracle (cached: name lookups are slow)
+// ---------------------------------------------------------------------------
+fn ip_is_local(ip: IpAddr) -> bool {
+    static CACHE: Mutex<Option<HashMap<IpAddr, bool>>> = Mutex::new(None);
+    let mut g = CACHE.lock().unwrap();
+    let m = g.get_or_insert_with(HashMap::new);
+    *m.entry(ip).or_insert_with(|| UdpSocket::bind(SocketAddr::new(ip, 0)).is_ok())
+}
+
+/// every socket address the authority denotes (empty when unresolvable)
+fn lookup(authority: &str) -> Vec<SocketAddr> {
+    static CACHE: Mutex<Option<HashMap<String, Vec<SocketAddr>>>> = Mutex::new(None);
+    if let Ok(sa) = authority.parse::<SocketAddr>() {
+        return vec![sa];
+    }
+    let mut g = CACHE.lock().unwrap();
+    let m = g.get_or_insert_with(HashMap::new);
+    m.entry(authority.to_string())
+        .or_insert_with(|| authority.to_socket_addrs().map(|i| i.collect()).unwrap_or_default())
+        .clone()
+}
+
+fn denotes_self(candidate: &str, self_address: &str) -> bool {
+    if candidate == self_address {
+        return true;
+    }
+    let mine = lookup(self_address);
+    let ports: BTreeSet<u16> = mine.iter().map(|s| s.port()).collect();
+    lookup(candidate)
+        .iter()
+        .any(|c| mine.contains(c) || (ports.contains(&c.port()) && ip_is_local(c.ip())))
+}
+
+// ---------------------------------------------------------------------------
+// case
+// ---------------------------------------------------------------------------
+#[derive(Clone, Debug, Serialize, Deserialize)]
+pub struct Addr {
+    pub text: String,
+    /// what the generator's machine said; re-checked at run time (a replay on a
+    /// machine with other interfaces is discarded, not misjudged)
+    pub is_self: bool,
+}
+
+#[derive(Clone, Debug, Serialize, Deserialize)]
+pub enum Op {
+    /// `set_members(list)`; indices into the universe, duplicates allowed
+    SetMembers(Vec<u8>),
+    /// `set_discovery(Static(list))` then one discovery pass
+    DiscoverStatic(Vec<u8>),
+    /// `set_discovery(Dns{..})` then one discovery pass
+    DiscoverDns { host: String, port: u16 },
+    /// one discovery pass with the current discovery source
+    ReResolve,
+    /// `set_members` of the CURRENT peer set, rotated, optionally with
+    /// duplicates and with extra spellings of this node mixed in
+    SetSameSet { rotate: u8, dup: bool, aliases: Vec<u8> },
+    RecordUp { a: u8, id: Option<u64>, flight: Option<u8> },
+    RecordDown { a: u8, err: u8 },
+    ResolveError(u8),
+}
+
+#[derive(Clone, Debug, Serialize, Deserialize)]
+pub struct History {
+    pub self_address: String,
+    pub universe: Vec<Addr>,
+    pub initial: Vec<u8>,
+    pub ops: Vec<Op>,
+}
+
+fn a<'c>(c: &'c History, i: u8) -> &'c Addr {
+    &c.universe[(i as usize) % c.universe.len()]
+}
+
+// ---------------------------------------------------------------------------
+// observation helpers
+// ---------------------------------------------------------------------------
+type Rec = (Option<u64>, Option<String>, u8, Option<u64>, Option<String>, u32);
+fn rec(m: &Member) -> Rec {
+    (
+        m.node_id,
+        m.flight.clone(),
+        match m.status {
+            PeerStatus::Unknown => 0,
+            PeerStatus::Up => 1,
+            PeerStatus::Down => 2,
+        },
+        m.last_seen_unix_ms,
+        m.last_error.clone(),
+        m.consecutive_failures,
+    )
+}
+fn peer_records(ms: &[Member]) -> BTreeMap<String, Rec> {
+    ms.iter().filter(|m| !m.is_self).map(|m| (m.address.clone(), rec(m))).collect()
+}
+
+struct Model {
+    peers: BTreeSet<String>,
+    resolved: bool,
+}
+
+/// what one discovery pass is expected to produce: Ok(address list) or Err
+fn expected_discovery(d: &Discovery) -> Result<Vec<String>, ()> {
+    match d {
+        Discovery::Static(l) => Ok(l.clone()),
+        Discovery::Dns { name, port } => {
+            let r = lookup(&format!("{}:{}", name, port));
+            if r.is_empty() {
+                Err(())
+            } else {
+                Ok(r.iter().map(|s| s.to_string()).collect())
+            }
+        }
+    }
+}
+
+pub struct Histories;
+impl Check for Histories {
+    type Case = History;
+    fn name(&self) -> &'static str {
+        "histories"
+    }
+    fn rule(&self) -> &'static str {
+        "the history contains a discovery result with a spelling of this node other than its own address, AND a re-resolution that yields an unchanged, non-empty peer set after a probe changed some surviving peer's record"
+    }
+    fn cases(&self, tier: Tier) -> u32 {
+        tier.pick(3000, 300_000)
+    }
+    fn strategy(&self, _tier: Tier) -> BoxedStrategy<History> {
+        let self_address = "127.0.0.1:7001".to_string();
+        // a non-loopback local IPv4, proposed by the engine's interface list
+        // and confirmed independently by binding to it
+        let local: Option<IpAddr> = {
+            let mut v: Vec<IpAddr> = query_engine::distributed::membership::local_ip_addresses()
+                .into_iter()
+                .filter(|ip| ip.is_ipv4() && !ip.is_loopback() && ip_is_local(*ip))
+                .collect();
+            v.sort();
+            v.first().copied()
+        };
+        let mut texts: Vec<String> = vec![
+            self_address.clone(),
+            "localhost:7001".into(),
+            "[::1]:7001".into(),
+            "127.0.0.1:7002".into(), // port-only difference
+            "10.9.8.1:7001".into(),
+            "10.9.8.2:7001".into(),
+            "10.9.8.2:7003".into(),
+            "localhost:7002".into(),         // a name, other port: a peer
+            "no-such-host.invalid:7001".into(), // unresolvable: a peer
+        ];
+        if let Some(ip) = local {
+            texts.push(format!("{}:7001", ip)); // this node by interface IP
+            texts.push(format!("{}:7002", ip)); // same IP, other port: a peer
+        }
+        let universe: Vec<Addr> = texts
+            .into_iter()
+            .map(|t| Addr { is_self: denotes_self(&t, &self_address), text: t })
+            .collect();
+        let n = universe.len() as u8;
+        let alias_idx: Vec<u8> = universe
+            .iter()
+            .enumerate()
+            .filter(|(_, a)| a.is_self)
+            .map(|(i, _)| i as u8)
+            .collect();
+        // the unresolvable name costs a DNS round trip per appearance: keep it rare
+        let slow = universe.iter().position(|a| a.text.contains(".invalid")).unwrap() as u8;
+        let idx = prop_oneof![30 => 0u8..n, 1 => Just(slow)].prop_map(move |i| i).boxed();
+        let fast_idx = (0u8..n).prop_map(move |i| if i == slow { 0 } else { i });
+        let list = prop::collection::vec(prop_oneof![20 => fast_idx.clone(), 1 => idx.clone()], 0..7);
+        let aliases = prop::collection::vec(prop::sample::select(alias_idx), 0..3);
+        let op = prop_oneof![
+            3 => list.clone().prop_map(Op::SetMembers),
+            2 => list.clone().prop_map(Op::DiscoverStatic),
+            1 => (prop_oneof![3 => Just("localhost".to_string()), 1 => Just("no-such-host.invalid".to_string())], prop_oneof![Just(7001u16), Just(7002u16)])
+                .prop_map(|(host, port)| Op::DiscoverDns { host, port }),
+            4 => Just(Op::ReResolve),
+            3 => (any::<u8>(), any::<bool>(), aliases).prop_map(|(rotate, dup, aliases)| Op::SetSameSet { rotate, dup, aliases }),
+            5 => (fast_idx.clone(), prop::option::of(0u64..4), prop::option::of(0u8..3)).prop_map(|(a, id, flight)| Op::RecordUp { a, id, flight }),
+            4 => (fast_idx.clone(), 0u8..3).prop_map(|(a, err)| Op::RecordDown { a, err }),
+            2 => (0u8..3).prop_map(Op::ResolveError),
+        ];
+        (list, prop::collection::vec(op, 1..40))
+            .prop_map(move |(initial, ops)| History { self_address: self_address.clone(), universe: universe.clone(), initial, ops })
+            .boxed()
+    }
+
+    fn test(&self, c: &History, obs: &mut Obs) -> Verdict {
+        if c.universe.is_empty() {
+            return Verdict::Discard("empty universe".into());
+        }
+        // environment re-check (replays on another machine)
+        for u in &c.universe {
+            if denotes_self(&u.text, &c.self_address) != u.is_self {
+                return Verdict::Discard(format!("environment: {} self={} does not hold on this machine", u.text, u.is_self));
+            }
+        }
+        let list = |ix: &[u8]| -> Vec<String> { ix.iter().map(|i| a(c, *i).text.clone()).collect() };
+        let is_me = |s: &str| denotes_self(s, &c.self_address);
+
+        let mem = Membership::new(SELF_ID, c.self_address.clone(), Discovery::Static(list(&c.initial)));
+        let mut model = Model { peers: BTreeSet::new(), resolved: false };
+        let mut prev_gen = mem.generation();
+        let mut touched: BTreeSet<String> = BTreeSet::new(); // peers whose record a probe changed
+        let mut saw_alias = false;
+        let mut saw_same_after_probe = false;
+
+        // invariants of a single observation
+        let observe = |step: &str, model: &Model| -> Result<Vec<Member>, String> {
+            let ms = mem.members();
+            let addrs: Vec<&str> = ms.iter().map(|m| m.address.as_str()).collect();
+            if addrs.windows(2).any(|w| w[0] >= w[1]) {
+                return Err(format!("{}: members() not strictly sorted by address: {:?}", step, addrs));
+            }
+            let selfs: Vec<&Member> = ms.iter().filter(|m| m.is_self).collect();
+            if selfs.len() != 1 {
+                return Err(format!("{}: {} entries with is_self (expected exactly 1): {:?}", step, selfs.len(), addrs));
+            }
+            if selfs[0].address != c.self_address {
+                return Err(format!("{}: the is_self entry has address {} (this node is {})", step, selfs[0].address, c.self_address));
+            }
+            for m in ms.iter().filter(|m| !m.is_self) {
+                if is_me(&m.address) {
+                    return Err(format!("{}: this node is listed as a peer under the spelling {} (view: {:?})", step, m.address, addrs));
+                }
+            }
+            let peers = mem.peer_addresses();
+            for p in &peers {
+                if is_me(p) {
+                    return Err(format!("{}: peer_addresses() contains this node as {}", step, p));
+                }
+            }
+            let want: Vec<String> = model.peers.iter().cloned().collect();
+            if peers != want {
+                return Err(format!("{}: peer_addresses() = {:?}, the discovered set (minus this node) is {:?}", step, peers, want));
+            }
+            let non_self: Vec<String> = ms.iter().filter(|m| !m.is_self).map(|m| m.address.clone()).collect();
+            if non_self != want {
+                return Err(format!("{}: members() lists peers {:?}, the discovered set (minus this node) is {:?}", step, non_self, want));
+            }
+            if mem.resolved() != model.resolved {
+                return Err(format!("{}: resolved() = {}, expected {}", step, mem.resolved(), model.resolved));
+            }
+            Ok(ms)
+        };
+
+        let mut before = match observe("initially", &model) {
+            Ok(ms) => ms,
+            Err(e) => return Verdict::Fail(e),
+        };
+
+        for (k, op) in c.ops.iter().enumerate() {
+            let step = format!("step {} {:?}", k, op);
+            // Some(list) = a successful discovery of that list; None = other
+            let mut discovered: Option<Vec<String>> = None;
+            let mut failed_discovery = false;
+            match op {
+                Op::SetMembers(ix) => {
+                    let l = list(ix);
+                    mem.set_members(l.clone());
+                    discovered = Some(l);
+                }
+                Op::SetSameSet { rotate, dup, aliases } => {
+                    let mut l: Vec<String> = model.peers.iter().cloned().collect();
+                    if !l.is_empty() {
+                        let r = (*rotate as usize) % l.len();
+                        l.rotate_left(r);
+                        if *dup {
+                            let first = l[0].clone();
+                            l.push(first);
+                        }
+                    }
+                    for (j, al) in aliases.iter().enumerate() {
+                        let t = a(c, *al).text.clone();
+                        if !a(c, *al).is_self {
+                            return Verdict::Discard("SetSameSet alias is not a spelling of this node".into());
+                        }
+                        let at = (j * 2).min(l.len());
+                        l.insert(at, t);
+                    }
+                    mem.set_members(l.clone());
+                    discovered = Some(l);
+                }
+                Op::DiscoverStatic(_) | Op::DiscoverDns { .. } | Op::ReResolve => {
+                    match op {
+                        Op::DiscoverStatic(ix) => mem.set_discovery(Discovery::Static(list(ix))),
+                        Op::DiscoverDns { host, port } => mem.set_discovery(Discovery::Dns { name: host.clone(), port: *port }),
+                        _ => {}
+                    }
+                    // server::resolve_once
+                    let d = mem.discovery();
+                    let want = expected_discovery(&d);
+                    match d.resolve() {
+                        Ok(addrs) => {
+                            mem.set_members(addrs.clone());
+                            match want {
+                                Ok(w) => {
+                                    // the engine sorts+dedups DNS answers; compare as sets
+                                    let (x, y): (BTreeSet<_>, BTreeSet<_>) = (addrs.iter().cloned().collect(), w.iter().cloned().collect());
+                                    if x != y {
+                                        return Verdict::Discard(format!("environment: resolver answers differ between calls ({:?} vs {:?})", addrs, w));
+                                    }
+                                }
+                                Err(()) => return Verdict::Discard("environment: name resolved for the engine but not for the harness".into()),
+                            }
+                            discovered = Some(addrs);
+                        }
+                        Err(e) => {
+                            if want.is_ok() {
+                                return Verdict::Discard("environment: name resolved for the harness but not for the engine".into());
+                            }
+                            mem.record_resolve_error(e.to_string());
+                            failed_discovery = true;
+                        }
+                    }
+                }
+                Op::RecordUp { a: i, id, flight } => {
+                    let t = &a(c, *i).text;
+                    mem.record_up(t, *id, flight.map(|f| format!("127.0.0.1:{}", 9000 + f as u16)));
+                    if model.peers.contains(t) {
+                        touched.insert(t.clone());
+                    }
+                }
+                Op::RecordDown { a: i, err } => {
+                    let t = &a(c, *i).text;
+                    mem.record_down(t, format!("error {}", err));
+                    if model.peers.contains(t) {
+                        touched.insert(t.clone());
+                    }
+                }
+                Op::ResolveError(e) => {
+                    mem.record_resolve_error(format!("resolve error {}", e));
+                    failed_discovery = true;
+                }
+            }
+
+            // step the model
+            let old_peers = model.peers.clone();
+            if let Some(l) = &discovered {
+                if l.iter().any(|s| s != &c.self_address && is_me(s)) {
+                    saw_alias = true;
+                }
+                model.peers = l.iter().filter(|s| !is_me(s)).cloned().collect();
+                model.resolved = true;
+            }
+            let set_changed = model.peers != old_peers;
+
+            let after = match observe(&step, &model) {
+                Ok(ms) => ms,
+                Err(e) => return Verdict::Fail(e),
+            };
+            let gen = mem.generation();
+            if gen < prev_gen {
+                return Verdict::Fail(format!("{}: generation went from {} to {}", step, prev_gen, gen));
+            }
+            if set_changed && gen <= prev_gen {
+                return Verdict::Fail(format!(
+                    "{}: the peer set changed ({:?} -> {:?}) but generation stayed {}",
+                    step, old_peers, model.peers, gen
+                ));
+            }
+            let (rb, ra) = (peer_records(&before), peer_records(&after));
+            if failed_discovery && rb != ra {
+                return Verdict::Fail(format!("{}: a resolve error changed the peer records: {:?} -> {:?}", step, rb, ra));
+            }
+            if discovered.is_some() && !set_changed {
+                if rb != ra {
+                    return Verdict::Fail(format!(
+                        "{}: re-resolving the same peer set changed probe state: {:?} -> {:?}",
+                        step, rb, ra
+                    ));
+                }
+                if !model.peers.is_empty() && model.peers.iter().any(|p| touched.contains(p)) {
+                    saw_same_after_probe = true;
+                }
+                if gen != prev_gen {
+                    obs.label("generation-advanced-on-unchanged-set(not judged)");
+                }
+            }
+            if set_changed {
+                touched.retain(|p| model.peers.contains(p));
+            }
+            prev_gen = gen;
+            before = after;
+        }
+        if saw_alias {
+            obs.label("self-alias-in-a-discovery");
+        }
+        if saw_same_after_probe {
+            obs.label("same-set-after-probe");
+        }
+        obs.nontrivial(saw_alias && saw_same_after_probe);
+        Verdict::Pass
+    }
+}
+
+// ---------------------------------------------------------------------------
+// is_self_address on its own, over a wider set of spellings
+// ---------------------------------------------------------------------------
+#[derive(Clone, Debug, Serialize, Deserialize)]
+pub struct SelfCase {
+    pub candidate: String,
+    pub self_address: String,
+}
+pub struct IsSelf;
+impl Check for IsSelf {
+    type Case = SelfCase;
+    fn name(&self) -> &'static str {
+        "is_self_address"
+    }
+    fn rule(&self) -> &'static str {
+        "candidate and self address are different strings"
+    }
+    fn cases(&self, tier: Tier) -> u32 {
+        tier.pick(400, 20_000)
+    }
+    fn strategy(&self, _tier: Tier) -> BoxedStrategy<SelfCase> {
+        let mut hosts: Vec<String> = vec!["127.0.0.1".into(), "localhost".into(), "[::1]".into(), "0.0.0.0".into(), "10.9.8.1".into(), "10.9.8.2".into()];
+        let mut v: Vec<IpAddr> = query_engine::distributed::membership::local_ip_addresses()
+            .into_iter()
+            .filter(|ip| ip.is_ipv4() && !ip.is_loopback() && ip_is_local(*ip))
+            .collect();
+        v.sort();
+        if let Some(ip) = v.first() {
+            hosts.push(ip.to_string());
+        }
+        let self_hosts = vec!["127.0.0.1".to_string(), "localhost".to_string(), "0.0.0.0".to_string()];
+        (prop::sample::select(hosts), prop_oneof![Just(7001u16), Just(7002u16)], prop::sample::select(self_hosts), Just(7001u16))
+            .prop_map(|(h, p, sh, sp)| SelfCase { candidate: format!("{}:{}", h, p), self_address: format!("{}:{}", sh, sp) })
+            .boxed()
+    }
+    fn test(&self, c: &SelfCase, obs: &mut Obs) -> Verdict {
+        obs.nontrivial(c.candidate != c.self_address);
+        // 0.0.0.0 as a *candidate* is "any address", not judged
+        if c.candidate.starts_with("0.0.0.0:") && c.candidate != c.self_address {
+            return Verdict::Discard("0.0.0.0 as a candidate".into());
+        }
+        let want = denotes_self(&c.candidate, &c.self_address);
+        let got = query_engine::distributed::membership::is_self_address(&c.candidate, &c.self_address);
+        if got != want {
+            return Verdict::Fail(format!(
+                "is_self_address({:?}, {:?}) = {}, expected {} (this node iff the strings are equal, or some address the candidate resolves to equals one of this node's, or has this node's port and a local IP)",
+                c.candidate, c.self_address, got, want
+            ));
+        }
+        Verdict::Pass
+    }
+}
 
 pub fn property() -> Property {
-    Property { id: "C15", level: "exploration", assumptions: &[], checks: vec![] }
+    Property {
+        id: "C15",
+        level: "exploration",
+        assumptions: &[
+            "this node advertises 127.0.0.1:7001; spellings of this node = localhost:7001, [::1]:7001, <a local interface IPv4>:7001 (locality decided by bind(), not by the engine's getifaddrs)",
+            "an unresolvable name and any address with another port are peers (documented in is_self_address / resolve_all)",
+            "one discovery pass = Discovery::resolve then set_members on Ok / record_resolve_error on Err, as in server::resolve_once",
+            "generation is only required to be monotone and to advance when the peer-address set changes; extra advances (status flips) are allowed",
+            "probe-state preservation is required for re-resolutions that yield an equal peer set, as the property states",
+        ],
+        checks: vec![Box::new(Histories), Box::new(IsSelf)],
+    }
 }
